@@ -10,7 +10,7 @@ VERIF = os.path.dirname(os.path.dirname(os.path.abspath(__file__)))
 
 
 def native(script, args, root, timeout=600):
-    env = dict(os.environ, PYTHONPATH=root, OMP_NUM_THREADS='1', OPENBLAS_NUM_THREADS='1', MKL_NUM_THREADS='1')
+    env = dict(os.environ, PYTHONPATH=root + os.pathsep + os.path.join(VERIF, 'native'), OMP_NUM_THREADS='1', OPENBLAS_NUM_THREADS='1', MKL_NUM_THREADS='1')
     try:
         p = subprocess.run(['/venv/bin/python', os.path.join(VERIF, script)] + args, capture_output=True, text=True, timeout=timeout,
                            env=env, cwd=VERIF)
@@ -20,6 +20,7 @@ def native(script, args, root, timeout=600):
 
 
 _FALSIFY_CACHE = {}
+FALSIFIABLE = {'C01', 'C02', 'C03', 'C04', 'C07', 'C08', 'C10', 'C11', 'C18', 'C19'}     # properties the scenario monitor of native/falsify.py can observe
 
 
 def make_replay(pid, ob, root, repo, tier):
@@ -43,25 +44,26 @@ def make_replay(pid, ob, root, repo, tier):
             rep['native'] = {'replayable': False, 'reproduced': None, 'error': (out + err)[-500:]}
     if not rep['native'].get('reproduced'):
         # bounded falsification search with the executable property as monitor
-        script = 'native/falsify_%s.py' % pid
-        if os.path.exists(os.path.join(VERIF, script)):
+        script = 'native/falsify.py'
+        if os.path.exists(os.path.join(VERIF, script)) and pid in FALSIFIABLE:
             if pid not in _FALSIFY_CACHE:
-                code, out, err = native(script, [], root, 900)
+                code, out, err = native(script, [pid], root, 900)
                 _FALSIFY_CACHE[pid] = (code, out, err)
             code, out, err = _FALSIFY_CACHE[pid]
             rep['falsification_search'] = {'exit': code, 'output': out[-3000:], 'stderr': err[-500:]}
             if code == 1:
                 rep['native'] = dict(rep['native'], reproduced=True, how='bounded native falsification search found a concrete failing input',
-                                     replay_cmd='PYTHONPATH=%s /venv/bin/python %s' % (root, os.path.join(VERIF, script)))
+                                     replay_cmd='PYTHONPATH=%s:%s /venv/bin/python %s %s' % (root, os.path.join(VERIF, 'native'), os.path.join(VERIF, script), pid),
+                                     failing_input=out.strip().split('\n')[-1][:3000])
     return rep
 
 
 def replay_file(pid, path, root):
     rep = json.load(open(path))
     print(json.dumps({k: rep[k] for k in ('property', 'obligation', 'function', 'line', 'solver')}, indent=1))
-    script = 'native/falsify_%s.py' % pid
-    if os.path.exists(os.path.join(VERIF, script)):
-        code, out, err = native(script, [], root, 900)
+    script = 'native/falsify.py'
+    if os.path.exists(os.path.join(VERIF, script)) and pid in FALSIFIABLE:
+        code, out, err = native(script, [pid], root, 900)
         print(out[-3000:])
         return 1 if code == 1 else 0
     print('no native replay available for this obligation (abstract path); re-run ./check %s to regenerate the obligation' % pid)
